@@ -93,6 +93,9 @@ def tasks(tier, seed):
     # restarts that change the step size with the shipped InterpolateBetweenRestarts controller loaded; retry budget exhausted with and without a crash
     for h in [(1, 1, 3, False, False), (1, 1, 3, False, True), (2, 1, 3, False, False)]:
         T.append(('hist',) + h + ([], {'shrink': True, 'interp': True}))
+    # steps that stop by a residual tolerance (every convergence pattern, later steps converging first included) with one restart request
+    for h, K in ([((2, 1, 3, False, True), 2), ((3, 1, 3, False, True), 2)] if quick else [((2, 1, 3, False, True), 3), ((3, 1, 4, False, True), 2), ((2, 1, 3, True, True), 2), ((3, 1, 3, False, False), 2)]):
+        T.append(('hist',) + h + ([], {'shrink': False, 'conv': K}))
     for h in hist:
         depth = 0 if h[0] < 3 else (3 if quick else 4)
         for bits in range(2 ** depth):
@@ -882,6 +885,45 @@ class InjectEarly(Inject):
         return {**super().setup(controller, params, description, **kw), 'control_order': -40}
 
 
+class InjectConv(Inject):
+    """injection for runs that stop by a residual tolerance: a restart may be requested as soon as the step is converged (or out of iterations);
+    a request, once made, stays; at most one request per run (bounds the path count)"""
+
+    def determine_restart(self, controller, S, **kw):
+        L = S.levels[0]
+        if S.status.restart or H.get('granted', 0) >= 1:
+            return
+        if S.status.iter >= S.params.maxiter or L.status.residual <= L.params.restol:
+            key = round(float(S.time), 9)
+            n = H['att'].get(key, 0)
+            H['att'][key] = n + 1
+            S.status.restart = bool(SymBool(z3.Bool(f'rs_{key}_{n}')))
+            if S.status.restart:
+                H['granted'] = H.get('granted', 0) + 1
+
+
+class ConvProbe(generic_implicit):
+    """real sweeper on real floats; only the residual handed to the convergence test at IT_CHECK is a fresh non-negative real (so that every
+    convergence pattern of the steps of a block -- later steps converging before earlier ones included -- is a feasible path)"""
+
+    def compute_residual(self, stage=''):
+        super().compute_residual(stage=stage)
+        L = self.level
+        S_ = L.__dict__.get('_probe_step')
+        # bound on the path count: symbolic residuals from iteration 1 on, for the first H['conv_budget'] convergence tests of the run and only
+        # until a restart has been requested (afterwards the real float residual decides)
+        if L.level_index == 0 and stage == 'IT_CHECK' and S_ is not None and S_.status.iter >= 1 and H.get('nres', 0) < H.get('conv_budget', 0) and H.get('granted', 0) == 0:
+            H['nres'] = H.get('nres', 0) + 1
+            v = z3.Real(f'res_{H["nres"]}')
+            Ctx.cur.add(v >= 0)
+            L.status.residual = SymReal(v)
+
+
+def hist_conv(shrink):
+    """option 'conv': K -- the steps stop by a residual tolerance (symbolic residuals, at most K iterations) instead of after one iteration"""
+    return int(shrink.get('conv', 0)) if isinstance(shrink, dict) else 0
+
+
 class RecH(Hooks):
     def post_step(self, step, level_number):
         super().post_step(step, level_number)
@@ -904,20 +946,29 @@ def hist_interp(shrink):
 
 def hist_run(c, NP, MAXR, NSTEPS, FIRST, CRASH, extra_hooks=(), shrink=False):
     interp = hist_interp(shrink)
+    conv = hist_conv(shrink)
     shrink, NL = hist_opts(shrink)
+    H['nres'] = 0
     H['att'] = {}
     H['log'] = []
     H['maxr'] = MAXR
     H['shrink'] = shrink
     H['granted'] = 0
     # the restart mode is given in the description, so that the REAL BasicRestarting.dependencies configures the step-size spreader for it
-    extra_cc = {(InjectEarly if interp else Inject): {}, BasicRestartingNonMPI: {'max_restarts': MAXR, 'restart_from_first_step': FIRST, 'crash_after_max_restarts': CRASH}}
+    extra_cc = {(InjectConv if conv else InjectEarly if interp else Inject): {}, BasicRestartingNonMPI: {'max_restarts': MAXR, 'restart_from_first_step': FIRST, 'crash_after_max_restarts': CRASH}}
     if interp:
         from pySDC.implementations.convergence_controller_classes.interpolate_between_restarts import InterpolateBetweenRestarts
 
         extra_cc[InterpolateBetweenRestarts] = {}
     desc = base_desc(NL=NL, extra_cc=extra_cc)
+    if conv:
+        desc['sweeper_class'] = ConvProbe
+        desc['level_params']['restol'] = 1e-3
+        desc['step_params']['maxiter'] = conv
     ctl = controller_nonMPI(NP, {'logger_level': 50, 'dump_setup': False, 'hook_class': [RecH] + list(extra_hooks), 'mssdc_jac': False}, desc)
+    H['conv_budget'] = NP * conv
+    for S_ in ctl.MS:
+        S_.levels[0].__dict__['_probe_step'] = S_
     P = ctl.MS[0].levels[0].prob
     u0 = P.u_exact(0)
     try:
@@ -996,7 +1047,7 @@ def hist_judge(r, NP, MAXR, NSTEPS, FIRST, CRASH, shrink=False):
 
 
 def hist_case(rep, NP, MAXR, NSTEPS, FIRST, CRASH, prefix, pid=PID, clauses=None, shrink=False):
-    name = f'hist/NP{NP}/maxr{MAXR}/steps{NSTEPS}/first{int(FIRST)}/crash{int(CRASH)}' + ('/shrink' if hist_opts(shrink)[0] else '') + (f'/NL{hist_opts(shrink)[1]}' if hist_opts(shrink)[1] > 1 else '') + ('/interp' if hist_interp(shrink) else '')
+    name = f'hist/NP{NP}/maxr{MAXR}/steps{NSTEPS}/first{int(FIRST)}/crash{int(CRASH)}' + ('/shrink' if hist_opts(shrink)[0] else '') + (f'/NL{hist_opts(shrink)[1]}' if hist_opts(shrink)[1] > 1 else '') + ('/interp' if hist_interp(shrink) else '') + (f'/conv{hist_conv(shrink)}' if hist_conv(shrink) else '')
 
     def fn(c):
         r = hist_run(c, NP, MAXR, NSTEPS, FIRST, CRASH, shrink=shrink)
